@@ -12,9 +12,11 @@ import (
 // A two-phase sequential model of MVCC validation: the index state the transaction read from
 // (old) and the index state at commit time (new = old + arbitrary later commits).
 type verifKeyState struct {
-	key   byte
-	oldTx uint64 // 0: key absent
-	newTx uint64 // 0: key absent (deleted/expired later, or never written)
+	key     byte
+	oldTx   uint64 // tx id of the latest version at read time (0: never written)
+	oldKind byte   // 0 live, 1 logically deleted, 2 expired
+	newTx   uint64 // the same at commit time
+	newKind byte
 }
 
 // VerifH_MVCCPointReads: a read-write transaction performs `reads` point reads (Get) and prefix
@@ -32,31 +34,40 @@ func VerifH_MVCCPointReads() {
 	for i := range m {
 		m[i].key = byte(i + 1) // distinct keys 1,2,3 (the reads pick among them or a 4th, absent key)
 		m[i].oldTx = verifrt.U64("oldTx")
-		verifrt.Assume(m[i].oldTx <= oldTs)
-		m[i].newTx = m[i].oldTx
+		m[i].oldKind = verifrt.Byte("oldKind")
+		verifrt.Assume(m[i].oldTx <= oldTs && m[i].oldKind <= 2)
+		m[i].newTx, m[i].newKind = m[i].oldTx, m[i].oldKind
 		if verifrt.Bool("touched") {
-			// a later commit wrote (newTx > oldTs) or removed (0) the key
+			// a later commit wrote a new version of the key: live, a logical delete, or one
+			// that is already expired
 			m[i].newTx = verifrt.U64("newTx")
-			verifrt.Assume(m[i].newTx == 0 || (m[i].newTx > oldTs && m[i].newTx <= oldTs+2))
-			if m[i].newTx != m[i].oldTx {
-				changed = true
-			}
+			m[i].newKind = verifrt.Byte("newKind")
+			verifrt.Assume(m[i].newTx > oldTs && m[i].newTx <= oldTs+2 && m[i].newKind <= 2)
+			changed = true
 		}
 	}
 	oldSnap, newSnap := &Snapshot{}, &Snapshot{}
-	lookup := func(s *Snapshot, key []byte) uint64 {
+	// version of a key in a state; tx 0 when the key has no LIVE version there
+	version := func(s *Snapshot, key []byte) (uint64, byte) {
 		if len(key) != 1 {
-			return 0
+			return 0, 0
 		}
 		for i := range m {
 			if m[i].key == key[0] {
 				if s == oldSnap {
-					return m[i].oldTx
+					return m[i].oldTx, m[i].oldKind
 				}
-				return m[i].newTx
+				return m[i].newTx, m[i].newKind
 			}
 		}
-		return 0
+		return 0, 0
+	}
+	lookup := func(s *Snapshot, key []byte) uint64 {
+		t, k := version(s, key)
+		if k != 0 {
+			return 0
+		}
+		return t
 	}
 	verifrt.Stub("(*embedded/store.OngoingTx).snap", func(tx *OngoingTx, key []byte) (*Snapshot, error) {
 		if len(tx.snapshots) == 0 {
@@ -68,11 +79,8 @@ func VerifH_MVCCPointReads() {
 	verifrt.Stub("(*embedded/store.Snapshot).Ts", func(s *Snapshot) uint64 { return oldTs })
 	verifrt.Stub("(*embedded/store.Snapshot).Close", func(s *Snapshot) error { return nil })
 	verifrt.Stub("(*embedded/store.Snapshot).GetWithFilters", func(s *Snapshot, ctx context.Context, key []byte, filters ...FilterFn) (ValueRef, error) {
-		t := lookup(s, key)
-		if t == 0 {
-			return nil, ErrKeyNotFound
-		}
-		return &valueRef{tx: t}, nil
+		t, k := version(s, key)
+		return verifVersionRef(t, k, filters)
 	})
 	// prefix read over 1-byte keys with the empty prefix: the smallest present key different from neq
 	verifrt.Stub("(*embedded/store.Snapshot).GetWithPrefixAndFilters", func(s *Snapshot, ctx context.Context, prefix []byte, neq []byte, filters ...FilterFn) ([]byte, ValueRef, error) {
@@ -136,8 +144,8 @@ func VerifH_MVCCPointReads() {
 			var gk byte
 			var gt uint64
 			for i := nkeys - 1; i >= 0; i-- {
-				if m[i].key != o.key && m[i].newTx != 0 {
-					gk, gt = m[i].key, m[i].newTx
+				if lt := lookup(newSnap, []byte{m[i].key}); m[i].key != o.key && lt != 0 {
+					gk, gt = m[i].key, lt
 				}
 			}
 			verifrt.Assert((gt != 0) == o.found, "prefix read: same found/not-found at commit time")
